@@ -5,7 +5,7 @@ import itertools
 
 from .. import observe, noisy, corpus, probe
 from ..common import h64, short
-from .base import rng, shards, apply_parse_monitors, cover_transitions
+from .base import rng, shards, apply_parse_monitors, cover_transitions, ReusedEnv
 from . import doccheck, c02
 
 from gherkin.parser import Parser
@@ -47,16 +47,17 @@ def plan(tier, seed):
         specs.append({"family": "arr_kinds", "first": first, "L": 6 if q else 8, "seed": seed, "n": 1})
     specs += shards("docs", 2000 if q else 100000, 250 if q else 4000, seed)
     specs += shards("noisy", 3000 if q else 150000, 500 if q else 5000, seed)
+    specs += shards("reused", 3000 if q else 150000, 500 if q else 5000, seed)
     specs += [{"family": "corpus", "seed": seed, "n": 1}, {"family": "w0", "seed": seed, "n": 1}]
     specs += shards("listings", 600 if q else 30000, 150 if q else 3000, seed)
     return specs
 
 
-def check_lines(L, M, case):
+def check_lines(L, M, case, env=None):
     text = noisy.text_of(L)
     M.case(h64(text))
     sim = noisy.simulate(L, False)
-    o = observe.parse_observed(text)
+    o = env.parse(text, M) if env is not None else observe.parse_observed(text)
     apply_parse_monitors(o, M, dict(case, text=text), G_DECIDING)
     cover_transitions(o, M)
     if o.log is not None:
@@ -133,6 +134,21 @@ def run_shard(spec, M):
             r = rng(spec["seed"], ID, "noisy", i)
             L = noisy.gen(r, 40)
             check_lines(L, M, {"kind": "lines", "L": L})
+    elif fam == "reused":
+        # the same parser object for the whole shard; perturbing documents (also abandoned parses) in between
+        env = ReusedEnv(rng(spec["seed"], ID, "reuse", spec["shard"]))
+        states = la_states()
+        for i in range(spec["start"], spec["start"] + spec["n"]):
+            r = rng(spec["seed"], ID, "reused", i)
+            if i % 2:
+                L = noisy.gen(r, 25)
+            else:
+                L0, k = noisy.state_paths()[r.choice(states)]
+                L = L0[:k] + [(2, noisy.IDX[RUN_TEXT[r.choice(RUN)]]) for _ in range(r.randint(1, 4))]
+                t = r.choice(TERMS)
+                if t is not None:
+                    L = L + [(2, noisy.IDX[t]), (4, noisy.IDX["Given x"])]
+            check_lines(L, M, {"kind": "shard", "spec": spec, "L": L}, env=env)
     elif fam == "w0":
         from .base import run_repo_tests_under_monitors
         run_repo_tests_under_monitors(M, G_DECIDING)
@@ -221,6 +237,9 @@ def check_listing(text, M, case, golden=None, path=None):
 
 def replay(case, M):
     k = case["kind"]
+    if k == "shard":
+        run_shard(case["spec"], M)
+        return
     if k == "lines":
         check_lines([tuple(x) for x in case["L"]], M, case)
     elif k == "kinds":
